@@ -29,6 +29,9 @@ import (
 
 type c14pcap struct{}
 
+// set by c14pcap_libpcap.go when the harness is built with cgo (libpcap available)
+var c14LibpcapRead func(file []byte, maxPkts int) ([]pcRes, error)
+
 func init() { register("C14pcap", c14pcap{}) }
 
 var c14DataLens = []int{0, 0, 1, 2, 3, 4, 5, 15, 16, 17, 31, 60, 64, 100, 256, 1500}
@@ -188,7 +191,7 @@ func c14GenFile(rng *rand.Rand, maxBytes int, outOfHyp bool, maxSnap uint64) ([]
 
 func (c14pcap) Gen(rng *rand.Rand, tier string) []Case {
 	var out []Case
-	nSmall, nBig := 160, 50
+	nSmall, nBig := 100, 30
 	if tier == "thorough" {
 		nSmall, nBig = 1500, 400
 	}
@@ -386,6 +389,31 @@ func (c14pcap) Run(c Case) Result {
 		}
 		if len(bounds) > 0 && bounds[len(bounds)-1] != len(file) {
 			res.Oracle = append(res.Oracle, fmt.Sprintf("C14:roundtrip\tfile length %d, records end at %d", len(file), bounds[len(bounds)-1]))
+		}
+	}
+	// ---- support oracle (testing only): libpcap reads the same packets from the whole file
+	if inHyp && c14LibpcapRead != nil && p.snap >= 1 && p.snap <= 262144 && len(want) > 0 {
+		early := true // libpcap 1.10 reads tv_sec as a signed 32-bit value: seconds are compared mod 2^32
+		if early {
+			got, err := c14LibpcapRead(file, len(want)+1)
+			tags["libpcap"] = true
+			if err != nil {
+				res.Oracle = append(res.Oracle, "C14:libpcap\t"+err.Error())
+			} else if len(got) != len(want)+1 {
+				res.Oracle = append(res.Oracle, fmt.Sprintf("C14:libpcap\tlibpcap returned %d results for %d packets", len(got), len(want)))
+			} else {
+				for i := range want {
+					g := got[i]
+					g.sec = int64(uint32(g.sec))
+					if !g.equal(want[i]) {
+						res.Oracle = append(res.Oracle, fmt.Sprintf("C14:libpcap\tpacket %d written %s, libpcap reads %s %s", i, want[i], got[i], got[i].detail))
+						break
+					}
+				}
+				if got[len(want)].cls != "eof" {
+					res.Oracle = append(res.Oracle, "C14:libpcap\tafter the last packet libpcap reports "+got[len(want)].cls+" "+got[len(want)].detail)
+				}
+			}
 		}
 	}
 	// ---- cuts
